@@ -8,7 +8,7 @@ legacy file raises LegacyMessageProfile.
 """
 import os
 
-from .. import tables, gen, structref
+from .. import tables, gen, structref, er7ref
 
 ID = 'C18'
 LEVEL = 'exploration'
@@ -214,7 +214,8 @@ def check_structure(core, parser, v, name, node, rng, rec):
             text = instance_text(v, name, node, c.name, 0)
             # place the target line at its structural position by rebuilding with a custom line
             text = instance_text_with_line(v, name, node, c.name, line)
-            for path in ('parse', 'traversal', 'add', 'assign-text', 'assign-text-custom-delimiters', 'copy-proxy'):
+            for path in ('parse', 'traversal', 'add', 'assign-text', 'assign-text-custom-delimiters', 'copy-proxy',
+                         'assign-message-text'):
                 rec.evaluation((v, name, 'datatype', r.name, path))
                 if path in ('assign-text', 'assign-text-custom-delimiters', 'copy-proxy'):
                     # a segment assigned as ER7 text (or copied from another message) is a child created by parsing
@@ -239,6 +240,12 @@ def check_structure(core, parser, v, name, node, rng, rec):
                     continue
                 if path == 'parse':
                     m = parser.parse_message(text, message_profile=prof)
+                    f = getattr(getattr(m, c.name.lower()), r.name.lower())[0]
+                elif path == 'assign-message-text':
+                    # the whole ER7 text assigned to a message created with the profile
+                    # (created with the delimiters the text declares: the library refuses a text declaring others)
+                    m = core.Message(name, reference=prof, version=v, encoding_chars=gen.full_ec(er7ref.STD))
+                    m.value = text
                     f = getattr(getattr(m, c.name.lower()), r.name.lower())[0]
                 elif path == 'traversal':
                     m = core.Message(name, reference=prof, version=v)
